@@ -4,25 +4,34 @@
    afkak._group.Coordinator (grp = false) / ConsumerGroup (grp = true) after the arbitrary event list evs:
    API calls, replies and failures of every request, timer firings, consumer failures and shutdown completions, in any
    order, including events the environment cannot produce (no-ops).  Never weaken a statement here. *)
-From AV Require Import Base.Util Model.Group Proofs.GroupInv Proofs.GroupInvH Proofs.GroupC17.
+From AV Require Import Base.Util Model.Group Proofs.GroupInv Proofs.GroupInvH Proofs.GroupEsc Proofs.GroupC17.
 
 (* Never idle.  While the Deferred of start() is outstanding and stop() has not been called (neither by the user nor by the
    member itself after a fatal error), the member is joining (a _join_and_sync generator exists), or stable with the
    heartbeat LoopingCall running, or a join_and_sync DelayedCall is pending on the reactor.
-   Hypothesis [escaped = false]: no exception that is not a KafkaError has escaped _join_and_sync in evs
-   (a boolean function of the event list: the ghost flag is set by exactly those events, Model/Group.v gen_fail).
+   Hypothesis [benign evs = true]: the event list contains no event that makes an exception which is not a KafkaError escape
+   _join_and_sync, i.e. none of: coordinator lookup / metadata load / partition lookup failing with a non-Kafka exception (or a
+   Twisted CancelledError), a JoinGroup reply electing this member leader with unusable member metadata, a partition lookup
+   that leaves a topic out, an undecodable assignment raising a non-Kafka exception ([escape_event], Proofs/GroupEsc.v).
    Without it the statement is false of the code: C17_nonkafka_idle_refuted (finding F-C17-2). *)
 Theorem C17_never_idle : forall grp evs, let s := state_after grp evs in
+  benign evs = true -> start_d s <> None -> stopping s = false -> stop_requested s = false ->
+  gens s <> [] \/ (rejoin_needed s = false /\ hb_running s = true) \/ timers s <> [].
+Proof. exact never_idle_benign. Qed.
+Print Assumptions C17_never_idle.
+(* the same with the weaker hypothesis "no such exception has actually escaped" (such an event addressed to no pending request
+   is a no-op): [escaped] is the model's ghost flag, set by gen_fail for a non-Kafka class only *)
+Theorem C17_never_idle_flag : forall grp evs, let s := state_after grp evs in
   escaped s = false -> start_d s <> None -> stopping s = false -> stop_requested s = false ->
   gens s <> [] \/ (rejoin_needed s = false /\ hb_running s = true) \/ timers s <> [].
 Proof. exact never_idle. Qed.
-Print Assumptions C17_never_idle.
+Print Assumptions C17_never_idle_flag.
 
 (* F-C17-2: metadata load raising a non-Kafka exception leaves a started member with nothing in flight, nothing scheduled. *)
 Theorem C17_nonkafka_idle_refuted : exists grp evs, let s := state_after grp evs in
-  start_d s <> None /\ stopping s = false /\ stop_requested s = false /\
+  benign evs = false /\ start_d s <> None /\ stopping s = false /\ stop_requested s = false /\
   gens s = [] /\ timers s = [] /\ hb_running s = false /\ escaped s = true.
-Proof. exists false, [EStart; ELookup 0 LBroker; EMeta 1 (RFail KNonKafka)]. exact nonkafka_idle_witness. Qed.
+Proof. exists false, [EStart; ELookup 0 LBroker; EMeta 1 (RFail KNonKafka)]. split; [reflexivity|exact nonkafka_idle_witness]. Qed.
 Print Assumptions C17_nonkafka_idle_refuted.
 
 (* "stable" really is stable: not needing a rejoin means the heartbeat looper runs and no join is in flight;
@@ -86,8 +95,9 @@ Print Assumptions C17_fatal_surfaces_after_leave.
 
 (* ---- non-vacuity: the hypotheses are met by reachable, non-trivial states ---- *)
 Example never_idle_nonvacuous_stable :   (* a leader that joined, synced and runs two consumers *)
-  let s := state_after true [EStart; ELookup 0 LBroker; EMeta 1 ROk; EJoin 2 (JOk 5 7 1); EParts 3 POk; ESync 4 (SOk [(0, 1); (1, 0)])] in
-  escaped s = false /\ start_d s <> None /\ stopping s = false /\ stop_requested s = false /\
+  let evs := [EStart; ELookup 0 LBroker; EMeta 1 ROk; EJoin 2 (JOk 5 7 1); EParts 3 POk; ESync 4 (SOk [(0, 1); (1, 0)])] in
+  let s := state_after true evs in
+  benign evs = true /\ escaped s = false /\ start_d s <> None /\ stopping s = false /\ stop_requested s = false /\
   gens s = [] /\ timers s = [] /\ rejoin_needed s = false /\ hb_running s = true /\ length (consumers s) = 2%nat.
 Proof. vm_compute. repeat split; auto; discriminate. Qed.
 Example never_idle_nonvacuous_waiting :  (* heartbeat answered RebalanceInProgress: waiting on the rejoin timer, nothing else *)
